@@ -55,12 +55,17 @@ type Segment struct {
 func (s *Segment) WriteTo(w io.Writer, _ chan struct{}) (int64, error) {
 	bw := bufio.NewWriter(w)
 
-	n, err := s.data.WriteTo(w)
+	// the footer CRC continues from the CRC of the data section, which
+	// s.footer.crc only holds for a segment that was never loaded
+	chw := newCountHashWriter(w)
+	n, err := s.data.WriteTo(chw)
 	if err != nil {
 		return n, fmt.Errorf("error persisting segment: %w", err)
 	}
 
-	err = persistFooter(s.footer, bw)
+	f := *s.footer
+	f.crc = chw.Sum32()
+	err = persistFooter(&f, bw)
 	if err != nil {
 		return n, fmt.Errorf("error persisting segment footer: %w", err)
 	}
